@@ -78,6 +78,63 @@ class Ctx(object):
         for r in self._pool.imap_unordered(fn, items, chunksize):
             yield r
 
+    def pmap_isolated(self, fn, items, timeout=900):
+        """Like pmap, but every item runs in its own forked process, so code under test that kills the
+        interpreter (segfault in a C extension, fatal error) costs one item, not the run.  Yields
+        (item, result) where result is {'died': exitcode} if the process ended without an answer."""
+        import multiprocessing
+        ctxm = multiprocessing.get_context('fork')
+        items = list(items)
+        pending = list(enumerate(items))
+        running = {}
+        import time as _t
+
+        def child(conn, it):
+            try:
+                conn.send(fn(it))
+            except BaseException as e:     # noqa
+                try:
+                    conn.send({'harness_error': 'exception in isolated worker: %r' % (e,)})
+                except Exception:   # noqa
+                    pass
+            finally:
+                conn.close()
+
+        while pending or running:
+            while pending and len(running) < self.workers:
+                idx, it = pending.pop(0)
+                parent, chld = ctxm.Pipe(duplex=False)
+                p = ctxm.Process(target=child, args=(chld, it))
+                p.start()
+                chld.close()
+                running[idx] = (p, parent, it, _t.time())
+            done = []
+            for idx, (p, conn, it, t0) in running.items():
+                res = None
+                if conn.poll(0):
+                    try:
+                        res = conn.recv()
+                    except EOFError:
+                        res = None
+                    p.join(5)
+                    if res is None:
+                        res = {'died': p.exitcode}
+                    done.append((idx, it, res))
+                elif not p.is_alive():
+                    if conn.poll(0):
+                        continue
+                    done.append((idx, it, {'died': p.exitcode}))
+                elif _t.time() - t0 > timeout:
+                    p.kill()
+                    p.join(5)
+                    done.append((idx, it, {'died': 'timeout'}))
+            for idx, it, res in done:
+                p, conn, _, _ = running.pop(idx)
+                conn.close()
+                yield it, res
+            if not done:
+                _t.sleep(0.02)
+
     def close(self):
         if self._pool is not None:
             self._pool.close()
